@@ -10,6 +10,7 @@ import (
 	"testing"
 	"time"
 
+	"github.com/openGemini/openGemini/engine/immutable"
 	"github.com/openGemini/openGemini/lib/cpu"
 	kit "github.com/openGemini/openGemini/lib/verifkit"
 	"github.com/openGemini/openGemini/lib/verifkit/crashfs"
@@ -25,9 +26,17 @@ type c03Case struct {
 	Prefix []string `json:"prefix"`
 	Reorg  string   `json:"reorg"`
 	Depth2 bool     `json:"depth2"`
+	// Piece > 0: size of the pieces in which an out-of-order merge copies the chunk of an untouched series (default 512 KiB)
+	Piece int `json:"piece,omitempty"`
 }
 
-func (c c03Case) key() string { return strings.Join(c.Prefix, " ") + " | " + c.Reorg }
+func (c c03Case) key() string {
+	k := strings.Join(c.Prefix, " ") + " | " + c.Reorg
+	if c.Piece > 0 {
+		k += fmt.Sprintf(" [copy pieces of %d bytes]", c.Piece)
+	}
+	return k
+}
 
 var c03Reorgs = []string{"LC", "FC", "MO", "MF"}
 
@@ -51,6 +60,8 @@ func c03Leftovers(root string) []string {
 // c03Run returns false if the reorganisation was a no-op for this layout.
 func c03Run(rep *kit.Report, scratch string, c c03Case, seenInputs map[uint64]bool) bool {
 	cpu.SetCpuNum(2, 1)
+	immutable.VerifCopyPieceSize = c.Piece
+	defer func() { immutable.VerifCopyPieceSize = 0 }()
 	root := vMkdir(scratch, "live") + "/"
 	imgRoot := vMkdir(scratch, "img")
 	work := strings.TrimSuffix(root, "/")
@@ -82,7 +93,7 @@ func c03Run(rep *kit.Report, scratch string, c c03Case, seenInputs map[uint64]bo
 	}
 	layoutBefore := v.Layout()
 	if seenInputs != nil {
-		h := kit.Hash(m.Digest(), vLayoutShape(layoutBefore), c.Reorg)
+		h := kit.Hash(m.Digest(), vLayoutShape(layoutBefore), c.Reorg, fmt.Sprint(c.Piece))
 		if seenInputs[h] {
 			rep.Count("equivalent_inputs_skipped", 1)
 			return false
@@ -279,7 +290,11 @@ func TestVerifC03(t *testing.T) {
 					return false
 				}
 				d2 := kit.Thorough() && l <= 4
-				c03Run(rep, scratch, c03Case{Prefix: append([]string(nil), names...), Reorg: r, Depth2: d2}, seen)
+				applicable := c03Run(rep, scratch, c03Case{Prefix: append([]string(nil), names...), Reorg: r, Depth2: d2}, seen)
+				if applicable && (r == "MO" || r == "MF") {
+					// the same merge with the raw copy of untouched chunks cut into small pieces (multi-piece copy loop)
+					c03Run(rep, scratch, c03Case{Prefix: append([]string(nil), names...), Reorg: r, Piece: 24}, seen)
+				}
 			}
 			return true
 		})
